@@ -880,6 +880,28 @@ func (env *Env) elabCall(x *ECall) SV {
 				v := env.elab(x.Args[0])
 				env.vc.declFun("chr", "(declare-fun chr (Int) Str)\n(assert (forall ((c Int)) (! (and (= (slen (chr c)) 1) (=> (and (<= 0 c) (< c 256)) (= (sat (chr c) 0) c))) :pattern ((chr c)))))")
 				return SV{t: app("chr", v.t), sort: "Str", ty: types.Typ[types.String]}
+			case "recvcount", "recvat":
+				// ghost history of a channel variable: recvcount(ch), recvat(ch, k)
+				cv := env.elab(x.Args[0])
+				name := strings.Trim(cv.t, "|")
+				name = strings.TrimPrefix(strings.TrimPrefix(name, "p."), "fv.")
+				var et types.Type
+				if cv.ty != nil {
+					if ch, ok := cv.ty.Underlying().(*types.Chan); ok {
+						et = ch.Elem()
+					}
+				}
+				if et == nil {
+					return env.fail("%s: not a channel", x.Args[0].String())
+				}
+				cn := "recv." + name
+				env.tr.stateSort[cn+".n"] = "Int"
+				env.tr.stateSort[cn+".at"] = "(Array Int " + env.vc.sortOf(et) + ")"
+				if id.Name == "recvcount" {
+					return env.intSV(env.tr.getState(env.st, cn+".n"))
+				}
+				k := env.elab(x.Args[1])
+				return env.goSV(sel(env.tr.getState(env.st, cn+".at"), k.t), et)
 			case "lastres":
 				fid, ok := x.Args[0].(*EIdent)
 				if !ok {
